@@ -35,3 +35,43 @@ func init() {
 	register(entryOf[H002]("H002"))
 	register(entryOf[H003]("H003"))
 }
+
+// embedded (anonymous) structs, two levels, the outer one not the first field: the typed write
+// path computes field offsets through the embedding chain
+type H004Inner struct {
+	A int32   `parquet:"a"`
+	B *string `parquet:"b"`
+	C int64   `parquet:"c,optional"`
+}
+
+type H004Mid struct {
+	X int64 `parquet:"x"`
+	H004Inner
+	Y string `parquet:"y,optional"`
+}
+
+type H004 struct {
+	ID int64 `parquet:"id"`
+	H004Mid
+	Z []int32 `parquet:"z"`
+}
+
+// Go maps (entry order is unspecified: these types are compared value-wise, not stream-wise)
+type H005 struct {
+	ID int64                       `parquet:"id"`
+	M  map[string]int64            `parquet:"m"`
+	MM map[string]map[string]int64 `parquet:"mm"`
+	S  map[string]H004Inner        `parquet:"s"`
+}
+
+// MapCatalog holds the types with Go maps; they are kept out of Catalog because stream-level
+// comparisons do not apply to them.
+var MapCatalog []*Entry
+
+func init() {
+	register(entryOf[H004]("H004"))
+	if e := entryOf[H005]("H005"); e != nil {
+		e.HasMap = true
+		MapCatalog = append(MapCatalog, e)
+	}
+}
